@@ -16,9 +16,19 @@
     derivative; right-hand side `1000·value` instead of `1000·(value − d)`.
   The clause therefore holds for the throwing types and FAILS for the cut of `bearing_distance` on
   `0 < d < 10⁻⁶` (known finding C05-cut-wider-than-singular: design limitation, 1 µm).
+
+  Round 9: the same NEG for the ANGULAR types on the same sight (`witnessAng`: reading π/2 = the true bearing;
+  `witnessAngle`: the sight as backsight of an angle with foresight (1, 0)).  `IsPartialBearing` / `IsPartialAngle`
+  are existential over the lift of the polar angle; the lift starts at `brg (dX o) (dY o)` — the TRUE polar angle
+  (π/2 for the witness), not the bearing 0 reported inside the cut — so `¬ IsPartialBearing … 0` is a statement
+  about the COEFFICIENT; it needs uniqueness of the lifted derivative (`C05_lifted_derivative_unique`).
+  The refuted coefficients are those of `x`: the code pushes `K·sin(0) = K·0`, which is 0 for every finite `K` —
+  the refutation does not rest on Lean's `2000/π/0 = 0` (`KF 0`); at `double` the product is `inf·0 = NaN`.
 -/
 import Gama.Lemmas.LinCut
 import Gama.Lemmas.LinCutNeg
+import Gama.Lemmas.LinCutNegAng
+import Gama.Lemmas.LinTotal
 import Mathlib.Analysis.Calculus.Deriv.Abs
 namespace Gama.Props.C05Cut
 open Gama Gama.Lin Real
@@ -112,6 +122,70 @@ theorem C05_cut_excludes_nonsingular :
     · rw [hd]; simp [witness]
   · intro h; have := isPartial_unique p3' h; norm_num at this
   · intro h; have := isPartial_unique p4' h; norm_num at this
+
+/-- **the derivative of a lifted bearing / angle does not depend on the lift** (sights of non-zero length): two
+    differentiable choices of polar angle differ near 0 by a `2πℤ`-valued function that is continuous at 0 and
+    vanishes there.  Makes `¬ IsPartialBearing` / `¬ IsPartialAngle` provable from one true coefficient. -/
+theorem C05_lifted_derivative_unique (off : Obs ℝ → ℝ) (o : Obs ℝ) (r : Role) (c : Coord) (v v' : ℝ) :
+    (hdist o ≠ 0 → IsPartialBearing (fun o => (dX o, dY o)) off o r c v →
+      IsPartialBearing (fun o => (dX o, dY o)) off o r c v' → v = v') ∧
+    (hdist o ≠ 0 → hdist2 o ≠ 0 → IsPartialAngle o r c v → IsPartialAngle o r c v' → v = v') :=
+  ⟨fun h => isPartialBearing_unique h, fun h h' => isPartialAngle_unique h h'⟩
+
+/-- **NEGATIVE FINDING, direction** (same 0.5 µm sight, reading = true bearing π/2, orientation 0): the sight is
+    inside the excluded set and outside the singular set; the direction IS differentiable there with
+    `∂/∂x_to = −4·10⁹/π`, `∂/∂x_from = +4·10⁹/π` cc/mm (non-zero); `direction` does not refuse it (it returns for
+    enough fuel) and every returned row pushes `x_to ↦ 0`, `x_from ↦ 0` and the right-hand side 100 gon although the
+    true misclosure is 0; neither pushed coefficient is the derivative, for ANY lift. -/
+theorem C05_cut_excludes_nonsingular_direction :
+    0 < hdist witnessAng ∧ hdist witnessAng < CUT ∧ brg (dX witnessAng) (dY witnessAng) = π / 2 ∧
+    IsPartialBearing (fun o => (dX o, dY o)) (fun o => o.orientation) witnessAng .pto .x (-(4000000000 / π)) ∧
+    IsPartialBearing (fun o => (dX o, dY o)) (fun o => o.orientation) witnessAng .pfrom .x (4000000000 / π) ∧
+    (∃ fuel out, Gen.Lin.direction fuel witnessAng = .ok out) ∧
+    (∀ fuel out, Gen.Lin.direction fuel witnessAng = .ok out →
+      (Role.pto, Coord.x, (0 : ℝ)) ∈ out.pushes ∧ (Role.pfrom, Coord.x, (0 : ℝ)) ∈ out.pushes ∧ out.rhs = 1000000) ∧
+    R2CC * (witnessAng.value + witnessAng.orientation - brg (dX witnessAng) (dY witnessAng)) = 0 ∧
+    ¬ IsPartialBearing (fun o => (dX o, dY o)) (fun o => o.orientation) witnessAng .pto .x 0 ∧
+    ¬ IsPartialBearing (fun o => (dX o, dY o)) (fun o => o.orientation) witnessAng .pfrom .x 0 := by
+  obtain ⟨t1, t2⟩ := witnessAng_direction_true
+  refine ⟨lt_of_le_of_ne (hdist_nonneg _) witnessAng_pos.symm, witnessAng_cut, witnessAng_brg, t1, t2,
+    direction_total _, witnessAng_direction_code, witnessAng_true_misclosure.1, ?_, ?_⟩
+  · intro h; have := isPartialBearing_unique witnessAng_pos t1 h; exact coeff_ne (by linarith)
+  · intro h; exact coeff_ne (isPartialBearing_unique witnessAng_pos t2 h)
+
+/-- **NEGATIVE FINDING, azimuth** (the same sight, `xNorth = 0`): as for the direction -/
+theorem C05_cut_excludes_nonsingular_azimuth :
+    IsPartialBearing (fun o => (dX o, dY o)) (fun o => o.xNorth) witnessAng .pto .x (-(4000000000 / π)) ∧
+    IsPartialBearing (fun o => (dX o, dY o)) (fun o => o.xNorth) witnessAng .pfrom .x (4000000000 / π) ∧
+    (∃ fuel out, Gen.Lin.azimuth fuel witnessAng = .ok out) ∧
+    (∀ fuel out, Gen.Lin.azimuth fuel witnessAng = .ok out →
+      (Role.pto, Coord.x, (0 : ℝ)) ∈ out.pushes ∧ (Role.pfrom, Coord.x, (0 : ℝ)) ∈ out.pushes ∧ out.rhs = 1000000) ∧
+    R2CC * (witnessAng.value + witnessAng.xNorth - brg (dX witnessAng) (dY witnessAng)) = 0 ∧
+    ¬ IsPartialBearing (fun o => (dX o, dY o)) (fun o => o.xNorth) witnessAng .pto .x 0 ∧
+    ¬ IsPartialBearing (fun o => (dX o, dY o)) (fun o => o.xNorth) witnessAng .pfrom .x 0 := by
+  obtain ⟨t1, t2⟩ := witnessAng_azimuth_true
+  refine ⟨t1, t2, azimuth_total _, witnessAng_azimuth_code, witnessAng_true_misclosure.2, ?_, ?_⟩
+  · intro h; have := isPartialBearing_unique witnessAng_pos t1 h; exact coeff_ne (by linarith)
+  · intro h; exact coeff_ne (isPartialBearing_unique witnessAng_pos t2 h)
+
+/-- **NEGATIVE FINDING, angle** (backsight = the 0.5 µm sight, foresight (1, 0) at 1 m): both sights have non-zero
+    length, the angle is differentiable w.r.t. `x` of the backsight target with coefficient `+4·10⁹/π` cc/mm;
+    `angle` returns and pushes `x_bs ↦ 0`, which is not the derivative for any pair of lifts. -/
+theorem C05_cut_excludes_nonsingular_angle :
+    hdist witnessAngle ≠ 0 ∧ hdist2 witnessAngle ≠ 0 ∧ hdist witnessAngle < CUT ∧
+    IsPartialAngle witnessAngle .pto .x (4000000000 / π) ∧
+    (∃ fuel out, Gen.Lin.angle fuel witnessAngle = .ok out) ∧
+    (∀ fuel out, Gen.Lin.angle fuel witnessAngle = .ok out → (Role.pto, Coord.x, (0 : ℝ)) ∈ out.pushes) ∧
+    ¬ IsPartialAngle witnessAngle .pto .x 0 :=
+  ⟨witnessAngle_pos.1, witnessAngle_pos.2, witnessAngle_cut, witnessAngle_true, angle_total _, witnessAngle_code,
+    fun h => coeff_ne (isPartialAngle_unique witnessAngle_pos.1 witnessAngle_pos.2 witnessAngle_true h)⟩
+
+-- non-vacuity of `C05_lifted_derivative_unique`: both hypotheses are met at the witnesses (with `v = v'` the true coefficient)
+example : hdist witnessAng ≠ 0 ∧
+    IsPartialBearing (fun o => (dX o, dY o)) (fun o => o.orientation) witnessAng .pto .x (-(4000000000 / π)) :=
+  ⟨witnessAng_pos, witnessAng_direction_true.1⟩
+example : hdist witnessAngle ≠ 0 ∧ hdist2 witnessAngle ≠ 0 ∧ IsPartialAngle witnessAngle .pto .x (4000000000 / π) :=
+  ⟨witnessAngle_pos.1, witnessAngle_pos.2, witnessAngle_true⟩
 
 -- non-vacuity of `C05_singular_set` (second half): a zero-length sight exists
 example : ∃ o : Obs ℝ, hdist o = 0 :=
